@@ -135,7 +135,7 @@ class _Worker:
 
 
 def pmap(func, cases, jobs=None, cpu_budget=30.0, wall_budget=None, env=None, keep_dir=False,
-         progress=None):
+         progress=None, fresh=False, share_size=None):
     """Run func(case) for each case; returns list of result dicts, one per case:
        {"status": "ok", "value": ...}
        {"status": "exception", "error": ..., "tb": ...}
@@ -160,13 +160,25 @@ def pmap(func, cases, jobs=None, cpu_budget=30.0, wall_budget=None, env=None, ke
         for k, v in env.items():
             e[k] = v.replace("{wdir}", wdir) if isinstance(v, str) else v
     results = [None] * n
-    shares = [[] for _ in range(jobs)]
-    for i, c in enumerate(cases):
-        shares[i % jobs].append((i, c))
-    workers = [_Worker(func, sh, wdir, e, w) for w, sh in enumerate(shares) if sh]
-    active = list(workers)
+    if fresh:                      # one new interpreter per case
+        shares = [[(i, c)] for i, c in enumerate(cases)]
+    elif share_size:               # many small shares: processes see different histories, load balances
+        shares = [[(i, cases[i]) for i in range(k, min(n, k + share_size))] for k in range(0, n, share_size)]
+    else:
+        shares = [[] for _ in range(jobs)]
+        for i, c in enumerate(cases):
+            shares[i % jobs].append((i, c))
+    pending = [(w, sh) for w, sh in enumerate(shares) if sh]
+    pending.reverse()
+    workers = []
+    active = []
     try:
-        while active:
+        while active or pending:
+            while pending and len(active) < jobs:
+                w_, sh_ = pending.pop()
+                wk = _Worker(func, sh_, wdir, e, w_)
+                workers.append(wk)
+                active.append(wk)
             time.sleep(0.02)
             for w in list(active):
                 w.poll_files()
